@@ -2,14 +2,23 @@
 # Model of `sample/trace_key.go` (`newTraceKey`, `traceKey.build`, `distinctValue`) and of the
 `GetSampleRate` tail shared by the five dynsampler-backed samplers  (property C11)
 
-A span is its field map (`field ↦ typed value`); a trace is the list of its spans (arrival order)
-plus the root span, if any (`trace.RootSpan`).  A typed value is kept as written in the transcript
-(`ty`, `raw`); how Go renders it is *not* re-implemented: the two renderings used by the code are
-parameters of the model (`Ext`), supplied by the harness as `ext` lines:
+A span is its field map (`field ↦ value`); a trace is the list of its spans (arrival order) plus
+the root span, if any (`trace.RootSpan`).  A value is the LOGICAL, type-tagged value the generator
+put into the span (`Val`): a string, an integer of some Go integer type (the mathematical integer),
+a bool, nil, or a value of another type (`float64`, slices, …).
 
-* `conv`  — `distinctValue.AddAsString`'s rendering (strconv for string/int/int64/float64/bool,
-            `<nil>`, `%v` otherwise)
-* `fmtv`  — `fmt.Sprintf("%v", v)` used for `root.`-prefixed fields
+How a value is rendered into the key is modelled here, independently of the code, for the types
+whose rendering is plain (`renderOf`): a string is itself, every Go integer type is its signed /
+unsigned decimal (`uint64` ≥ 2^63 and the `int64` minimum included), `true`/`false`, `<nil>`.
+Only for floats and other types the text is external (`Ext`), and the harness takes it from the Go
+standard library itself (`strconv.FormatFloat(v,'f',-1,64)`, `fmt.Sprintf("%v", v)`), never from
+the code under verification:
+
+* `Ext.str ty raw` — what `AddAsString` must produce for a non-plain value
+* `Ext.fmt ty raw` — `fmt.Sprintf("%v", v)`, used for `root.`-prefixed fields
+
+The key-building functions below are generic in the rendering (`Render`), so the theorems hold for
+every rendering; the model of the code is `build … (renderOf e)`.
 
 `distinctValue` dedups by `wyhash` of the rendering; the model dedups by the rendering itself
 (assumption: no 64-bit hash collision among a trace's values).
@@ -31,9 +40,12 @@ build:
 -/
 namespace Refinery.Model.TraceKey
 
-structure Val where
-  ty : String
-  raw : String
+inductive Val where
+  | str (s : String)
+  | int (ty : String) (n : Int)        -- any Go integer type `ty`; `n` is the number itself
+  | bool (b : Bool)
+  | nil
+  | ext (ty : String) (raw : String)   -- float64 (`raw` = shortest round-trip text) and all other types
   deriving DecidableEq, Repr
 
 /-- a span's `Data`: Go map, modelled as an association list (first binding wins) -/
@@ -50,10 +62,31 @@ structure Cfg where
   useTraceLength : Bool := false
   deriving Repr
 
-/-- the two Go renderings of a value (external; supplied by the harness) -/
-structure Ext where
+/-- how values are turned into text: `conv` for key fields (`AddAsString`), `fmtv` for root-only
+fields (`%v`) -/
+structure Render where
   conv : Val → String
   fmtv : Val → String
+
+/-- Go standard-library text of the non-plain values (external; supplied by the harness) -/
+structure Ext where
+  str : String → String → String
+  fmt : String → String → String
+
+/-- the rendering the code must implement: plain types as Go's `strconv`/`%v` define them -/
+def renderOf (e : Ext) : Render where
+  conv
+    | .str s => s
+    | .int _ n => toString n
+    | .bool b => if b then "true" else "false"
+    | .nil => "<nil>"
+    | .ext ty raw => e.str ty raw
+  fmtv
+    | .str s => s
+    | .int _ n => toString n
+    | .bool b => if b then "true" else "false"
+    | .nil => "<nil>"
+    | .ext ty raw => e.fmt ty raw
 
 /-! ## `sort.Strings` (insertion sort: kernel-reducible) -/
 
@@ -138,13 +171,13 @@ def renderLen (c : Cfg) (spans : List Span) : String × Nat :=
   if c.useTraceLength then (toString spans.length, 1) else ("", 0)
 
 /-- `traceKey.build`: the key and the number of values used -/
-def build (cap : Nat) (pre : String) (x : Ext) (c : Cfg) (t : Trace) : String × Nat :=
+def build (cap : Nat) (pre : String) (x : Render) (c : Cfg) (t : Trace) : String × Nat :=
   let g := renderGroups (collect cap x.conv t.spans (nonRootFields pre c) 0)
   let r := renderRoot x.fmtv t.root (rootFields pre c)
   let l := renderLen c t.spans
   (g.1 ++ r.1 ++ l.1, g.2 + r.2 + l.2)
 
-def key (cap : Nat) (pre : String) (x : Ext) (c : Cfg) (t : Trace) : String := (build cap pre x c t).1
+def key (cap : Nat) (pre : String) (x : Render) (c : Cfg) (t : Trace) : String := (build cap pre x c t).1
 
 /-! ## specification-level notions used by the theorems -/
 
@@ -161,7 +194,10 @@ def distinctTotal (conv : Val → String) (spans : List Span) (fields : List Str
   (fields.map fun f => (distinctVals conv spans f).length).sum
 
 /-- same set of values -/
-def SameSet (a b : List String) : Prop := ∀ s, s ∈ a ↔ s ∈ b
+def SameSet {α : Type} (a b : List α) : Prop := ∀ s, s ∈ a ↔ s ∈ b
+
+/-- the (logical) values `field` takes over the spans that have it, in span order -/
+def fieldLogical (spans : List Span) (f : String) : List Val := spans.filterMap fun sp => sp.lookup f
 
 /-! ## the tail of `GetSampleRate` (identical in all five samplers; as of commit 6dd5492)
 
@@ -187,7 +223,7 @@ def decision (r : Int) (intn : Nat → Nat) : Decision :=
 
 /-- `GetSampleRate`: build the key, ask dynsampler with (key, number of spans), decide.
 Returns the key and the decision. -/
-def getSampleRate (cap : Nat) (pre : String) (x : Ext) (c : Cfg) (t : Trace)
+def getSampleRate (cap : Nat) (pre : String) (x : Render) (c : Cfg) (t : Trace)
     (dyn : String → Nat → Int) (intn : Nat → Nat) : String × Decision :=
   let k := key cap pre x c t
   (k, decision (dyn k t.spans.length) intn)
